@@ -122,6 +122,11 @@ type item struct {
 	Scn    int   `json:"s"`
 	Bound  int   `json:"b"`
 	Prefix []int `json:"p"`
+	// Round: unsplit (happens-before) scenarios are served in time slices; what a slice leaves over comes
+	// back one round later, so every scenario gets its first slice before any gets a second one
+	Round int `json:"r,omitempty"`
+	// Stack: the whole unexplored DFS stack of an unsplit scenario (instead of Prefix)
+	Stack [][]int `json:"k,omitempty"`
 }
 
 type vrec struct {
@@ -273,9 +278,16 @@ func picks(cs []vrt.Choice) []int {
 
 // exploreItem explores the subtree rooted at prefix (the execution of prefix itself included) until
 // done, budget or deadline; unexplored work is returned in st.Rest.
-func exploreItem(scn *Scenario, bound int, prefix []int, budget int, deadline time.Time) *stats {
+func exploreItem(scn *Scenario, bound int, prefix []int, budget int, deadline time.Time, resume ...[][]int) *stats {
 	st := &stats{Outcomes: map[string]int{}}
 	stack := [][]int{prefix}
+	if len(resume) > 0 && len(resume[0]) > 0 {
+		stack = resume[0]
+	}
+	if os.Getenv("VERIF_VERBOSE") == "2" {
+		fmt.Fprintf(os.Stderr, "      worker: %s bound=%d start stack=%d budget=%d\n", scn.Name, bound, len(stack), budget)
+		defer func() { fmt.Fprintf(os.Stderr, "      worker: %s bound=%d end execs=%d rest=%d\n", scn.Name, bound, st.Execs, len(st.Rest)) }()
+	}
 	first := true
 	for len(stack) > 0 {
 		if st.Execs >= budget || (st.Execs%64 == 0 && time.Now().After(deadline)) || len(st.Viols) >= 3 {
@@ -421,7 +433,7 @@ func workerLoop(scns []Scenario) {
 				runOne(scn, nil, false)
 			}
 			before := atomic.LoadInt64(&vrt.ShimOps)
-			st = exploreItem(scn, rq.Item.Bound, rq.Item.Prefix, rq.Budget, time.UnixMilli(rq.Deadline))
+			st = exploreItem(scn, rq.Item.Bound, rq.Item.Prefix, rq.Budget, time.UnixMilli(rq.Deadline), rq.Item.Stack)
 			st.ShimOps = atomic.LoadInt64(&vrt.ShimOps) - before
 		}
 		b, _ := json.Marshal(st)
@@ -621,6 +633,13 @@ func run(cfg Config, scns []Scenario, tier, only string, nproc int, limit time.D
 		}
 		var wg sync.WaitGroup
 		budget := 4000
+		slice := 15 * time.Second
+		if tier == "thorough" {
+			slice = 90 * time.Second
+		}
+		if v, err := strconv.Atoi(os.Getenv("VERIF_SLICE_MS")); err == nil && v > 0 {
+			slice = time.Duration(v) * time.Millisecond // experiments only
+		}
 		for w := 0; w < nproc; w++ {
 			wk, err := startWorker()
 			if err != nil {
@@ -649,7 +668,7 @@ func run(cfg Config, scns []Scenario, tier, only string, nproc int, limit time.D
 					// order; deep subtrees first keeps the queue small)
 					best := len(queue) - 1
 					for qi := len(queue) - 1; qi >= 0; qi-- {
-						if queue[qi].Scn < queue[best].Scn {
+						if queue[qi].Round < queue[best].Round || queue[qi].Round == queue[best].Round && queue[qi].Scn < queue[best].Scn {
 							best = qi
 						}
 					}
@@ -663,7 +682,11 @@ func run(cfg Config, scns []Scenario, tier, only string, nproc int, limit time.D
 					if stopScn[it.Scn] || time.Now().After(deadline) {
 						if !stopScn[it.Scn] || cappedScn[it.Scn] {
 							capped = true
-							perScn[it.Scn].Rest = append(perScn[it.Scn].Rest, it.Prefix)
+							if len(it.Stack) > 0 {
+								perScn[it.Scn].Rest = append(perScn[it.Scn].Rest, it.Stack...)
+							} else {
+								perScn[it.Scn].Rest = append(perScn[it.Scn].Rest, it.Prefix)
+							}
 						}
 						pendingPerScn[it.Scn]--
 						mu.Unlock()
@@ -672,12 +695,18 @@ func run(cfg Config, scns []Scenario, tier, only string, nproc int, limit time.D
 					inflight++
 					mu.Unlock()
 					ib := budget
-					if scns[it.Scn].HB && !noHB {
+					idl := deadline
+					unsplit := scns[it.Scn].HB && !noHB
+					if unsplit {
 						// the happens-before cache lives in one worker process: do not split such a scenario
-						// (measured: 8x more executions when its subtrees are spread over 16 caches)
+						// (measured: 8x more executions when its subtrees are spread over 16 caches); instead
+						// it runs in time slices, and what a slice leaves over is queued one round later
 						ib = scns[it.Scn].MaxExecs + 1
+						if d := time.Now().Add(slice); d.Before(idl) {
+							idl = d
+						}
 					}
-					rq, _ := json.Marshal(wreq{Item: it, Budget: ib, Deadline: deadline.UnixMilli()})
+					rq, _ := json.Marshal(wreq{Item: it, Budget: ib, Deadline: idl.UnixMilli()})
 					wk.in.Write(rq)
 					wk.in.WriteByte('\n')
 					wk.in.Flush()
@@ -699,9 +728,17 @@ func run(cfg Config, scns []Scenario, tier, only string, nproc int, limit time.D
 					if len(st.Viols) > 0 || len(st.EngineErr) > 0 {
 						stopScn[it.Scn] = true
 					}
-					for _, r := range st.Rest {
-						queue = append(queue, item{Scn: it.Scn, Bound: it.Bound, Prefix: r})
+					if os.Getenv("VERIF_VERBOSE") == "2" {
+						fmt.Fprintf(os.Stderr, "    slice %s bound=%d round=%d in-stack=%d execs=%d rest=%d pruned=%d\n", scns[it.Scn].Name, it.Bound, it.Round, len(it.Stack), st.Execs, len(st.Rest), st.Pruned)
+					}
+					if unsplit && len(st.Rest) > 0 {
+						queue = append(queue, item{Scn: it.Scn, Bound: it.Bound, Stack: st.Rest, Round: it.Round + 1})
 						pendingPerScn[it.Scn]++
+					} else {
+						for _, r := range st.Rest {
+							queue = append(queue, item{Scn: it.Scn, Bound: it.Bound, Prefix: r})
+							pendingPerScn[it.Scn]++
+						}
 					}
 					pendingPerScn[it.Scn]--
 					if pendingPerScn[it.Scn] == 0 && !stopScn[it.Scn] {
